@@ -127,6 +127,15 @@ func decode(dst ivg.Destination, p printer, m *ivg.Metadata, metadataOnly bool, 
 	for _, opt := range opts {
 		opt(m)
 	}
+	if len(opts) > 0 {
+		// User supplied colors that are not valid alpha-premultiplied colors
+		// resolve to opaque black; they must never be taken for gradients.
+		for i, c := range m.Palette {
+			if !ivg.ValidAlphaPremulColor(c) {
+				m.Palette[i] = color.RGBA{0x00, 0x00, 0x00, 0xff}
+			}
+		}
+	}
 	if metadataOnly {
 		return nil
 	}
